@@ -2,7 +2,7 @@
 """Per-property status table for DESIGN.md §10.5 (between <!-- STATUS-TABLE-BEGIN/END -->)."""
 import glob, json, os, re
 VERIF = os.path.dirname(os.path.dirname(os.path.abspath(__file__)))
-rows = ["| property | statements in `Props/Cxx.v` (full / `_partial` / `_refuted` / examples) | correspondence suites (last evidence) | open findings | repaired | seeded changes caught by own check (concrete) |",
+rows = ["| property | statements in `Props/Cxx.v` (full / `_partial` / `_refuted` / examples) | obligations discharged (last evidence file) | open findings | repaired | seeded changes caught by own check (concrete) |",
         "|---|---|---|---|---|---|"]
 for i in range(1, 21):
     p = f"C{i:02d}"
@@ -26,7 +26,7 @@ for i in range(1, 21):
         if c and c.get("detected"):
             caught += 1
             conc += bool(c.get("concrete_input"))
-    rows.append(f"| {p} | {full} / {part} / {ref} / {ex} | {cov.get('discharged', '?')}/{suites} obligations discharged | {op} | {fx} | {caught}/{tot} ({conc}) |")
+    rows.append(f"| {p} | {full} / {part} / {ref} / {ex} | {cov.get('discharged', '?')}/{suites} | {op} | {fx} | {caught}/{tot} ({conc}) |")
 tab = "\n".join(rows) + "\n"
 dp = os.path.join(VERIF, "DESIGN.md")
 s = open(dp).read()
